@@ -1206,3 +1206,171 @@ def _():
     out += _fp("full_frame_buf_alloc", ast.unparse(find_assign(fn, "frame_buf").value))
     out += _fp("full_buf_count", ast.unparse(find_assign(fn, "buf_count").value))
     return out
+
+
+# ======================================================================================
+# Gen/Fullmatch.lean  --  common/fullmatch.py
+# ======================================================================================
+_trcore.GEN_IMPORTS["Fullmatch"] = ["BlobfinderModel.Model.Scalar"]
+
+
+@fragment("Fullmatch", "filters")
+def _():
+    fn = find_def(FM, "size_filter")
+    sel = find_assign(fn, "select")
+    v = sel.value
+    if not (isinstance(v, ast.BinOp) and isinstance(v.op, ast.Mult)):
+        raise Untranslatable("size_filter select")
+    env = Env(subst={"polar[:, 0]": ("len", RAT)}, vars={"min_delta": ("min_delta", RAT), "max_delta": ("max_delta", RAT)})
+    a, _ = tr(v.left, env)
+    b, _ = tr(v.right, env)
+    out = f"def size_ok (len min_delta max_delta : Rat) : Bool := {a} && {b}\n"
+    fn = find_def(FM, "angle_check")
+    out += _fp("angle_diff_expr", ast.unparse(find_assign(fn, "diff").value))
+    ret = [s for s in stmts_of(fn) if isinstance(s, ast.Return)][0].value
+    if not (isinstance(ret, ast.BinOp) and isinstance(ret.op, ast.Mult)):
+        raise Untranslatable("angle_check return")
+    env = Env(subst={"np.pi": ("pi", RAT)}, vars={"diff": ("diff", RAT), "limit": ("limit", RAT)})
+    a, _ = tr(ret.left, env)
+    b, _ = tr(ret.right, env)
+    out += f"def angle_ok (diff limit pi : Rat) : Bool := {a} && {b}\n"
+    return out
+
+
+@fragment("Fullmatch", "full_match_loop")
+def _():
+    fn = find_def(FM, "FullMatcher.full_match")
+    filt = find_assign(fn, "filt")
+    env = Env(subst={"corr.peak_elevations": ("elev", RAT), "self.min_weight": ("min_weight", RAT)})
+    c, _ = tr(filt.value, env)
+    out = f"def fullm_weight_ok (elev min_weight : Rat) : Bool := {c}\n"
+    loops = [s for s in stmts_of(fn) if isinstance(s, ast.While)]
+    if len(loops) != 1 or ast.unparse(loops[0].test) != "True":
+        raise Untranslatable("full_match: while True loop")
+    lp = loops[0]
+    out += _fp("fullm_loop", " ; ".join(ast.unparse(s) for s in lp.body))
+    cont = [n for n in ast.walk(lp) if isinstance(n, ast.If) and "count_nonzero" in ast.unparse(n.test)]
+    if len(cont) != 1:
+        raise Missing("continuation test of the full_match loop")
+    env = Env(subst={"np.count_nonzero(new_selector)": ("n", INT), "self.min_match": ("min_match", INT)})
+    c, _ = tr(cont[0].test, env)
+    out += f"def fullm_continue (n min_match : Int) : Bool := {c}\n"
+    tail = [ast.unparse(s) for s in stmts_of(fn) if s.lineno > lp.end_lineno]
+    out += _fp("fullm_tail", " ; ".join(tail))
+    out += _fp("fullm_working_init", ast.unparse(find_assign(fn, "working_set", nth=0).value))
+    out += _fp("fullm_zero_selector", ast.unparse(find_assign(fn, "zero_selector").value))
+    out += _fp("fullm_methods", ast.unparse([s for s in stmts_of(fn) if isinstance(s, ast.If) and "cand is not None" in ast.unparse(s.test)][0]))
+    out += _fp("tumble_body", " ; ".join(_stmt_texts(find_def(FM, "FullMatcher._tumble"))))
+    out += _fp("check_body", " ; ".join(_stmt_texts(find_def(FM, "FullMatcher.check"))))
+    out += _fp("do_match_body", " ; ".join(_stmt_texts(find_def(FM, "FullMatcher._do_match"))))
+    out += _fp("best_body", " ; ".join(_stmt_texts(find_def(FM, "FullMatcher._find_best_vector_match"))[-1:]))
+    return out
+
+
+# ======================================================================================
+# Gen/Udf.lean  --  udf/correlation.py, udf/refinement.py, udf/integration.py
+# ======================================================================================
+_trcore.GEN_IMPORTS["Udf"] = ["BlobfinderModel.Model.Scalar"]
+
+
+def _method_body(rel, qual):
+    return " ; ".join(_stmt_texts(find_def(rel, qual)))
+
+
+@fragment("Udf", "correlation_udfs")
+def _():
+    out = _fp("corr_init", _method_body(UC, "CorrelationUDF.__init__"))
+    out += _fp("get_zero_shift_body", _method_body(UC, "CorrelationUDF.get_zero_shift"))
+    for cls, nm in (("FastCorrelationUDF", "fast"), ("FullFrameCorrelationUDF", "full")):
+        fn = find_def(UC, f"{cls}.process_frame")
+        calls = [c for c in ast.walk(fn) if isinstance(c, ast.Call) and ast.unparse(c.func).startswith("ltbc.process_frame_")]
+        if len(calls) != 1:
+            raise Untranslatable(f"{cls}.process_frame: call of process_frame_*")
+        out += _fp(f"udf_{nm}_call", ast.unparse(calls[0].func))
+        for k in calls[0].keywords:
+            out += _fp(f"udf_{nm}_arg_{k.arg}", ast.unparse(k.value))
+        out += _fp(f"udf_{nm}_task_data", _method_body(UC, f"{cls}.get_task_data"))
+    out += _fp("udf_result_buffers", _method_body(UC, "CorrelationUDF.get_result_buffers"))
+    out += _fp("udf_output_buffers", _method_body(UC, "CorrelationUDF.output_buffers"))
+    return out
+
+
+@fragment("Udf", "sparse_udf")
+def _():
+    out = _fp("sparse_init", _method_body(UC, "SparseCorrelationUDF.__init__"))
+    out += _fp("sparse_task_data", _method_body(UC, "SparseCorrelationUDF.get_task_data"))
+    out += _fp("sparse_process_tile", _method_body(UC, "SparseCorrelationUDF.process_tile"))
+    out += _fp("sparse_postprocess", _method_body(UC, "SparseCorrelationUDF.postprocess"))
+    out += _fp("sparse_result_buffers", _method_body(UC, "SparseCorrelationUDF.get_result_buffers"))
+    fn = find_def(UC, "SparseCorrelationUDF.get_task_data")
+    oy = find_assign(fn, "offsetY", nth=0)
+    env = Env(subst={"self.params.peaks[:, 0, np.newaxis, np.newaxis]": ("peak", INT), "peak_offsetY": ("d", INT),
+                     "self.params.peaks[:, 1, np.newaxis, np.newaxis]": ("peak", INT), "peak_offsetX": ("d", INT)},
+              vars={"crop_size": ("crop_size", INT)})
+    vy, _ = tr(oy.value, env)
+    vx, _ = tr(find_assign(fn, "offsetX", nth=0).value, env)
+    if vy != vx:
+        raise Untranslatable("sparse offsets differ between the axes")
+    out += f"def sparse_offset (peak d crop_size : Int) : Int := {vy}\n"
+    size = find_assign(fn, "size")
+    if not (isinstance(size.value, ast.Tuple) and ast.unparse(size.value.elts[0]) == ast.unparse(size.value.elts[1])):
+        raise Untranslatable("sparse template size")
+    v, _ = tr(size.value.elts[0], Env(vars={"crop_size": ("crop_size", INT)}))
+    out += f"def sparse_size (crop_size : Int) : Int := {v}\n"
+    return out
+
+
+@fragment("Udf", "refinement")
+def _():
+    out = _fp("fastmatch_postprocess", _method_body(UR, "FastmatchMixin.postprocess"))
+    out += _fp("affine_postprocess", _method_body(UR, "AffineMixin.postprocess"))
+    out += _fp("apply_match_body", _method_body(UR, "RefinementMixin.apply_match"))
+    fn = find_def(UR, "run_refine")
+    fp = [c for c in ast.walk(fn) if isinstance(c, ast.Call) and ast.unparse(c.func) == "frame_peaks"]
+    if len(fp) != 1:
+        raise Missing("frame_peaks call in run_refine")
+    out += _fp("refine_frame_peaks_args", ", ".join(f"{k.arg}={ast.unparse(k.value)}" for k in fp[0].keywords))
+    out += _fp("refine_peaks_cast", ast.unparse(find_assign(fn, "peaks", nth=0).value))
+
+    def chain(var):
+        first = [s for s in stmts_of(fn) if isinstance(s, ast.If) and isinstance(s.test, ast.Compare)
+                 and ast.unparse(s.test.left) == var and isinstance(s.test.ops[0], ast.Eq)]
+        if len(first) != 1:
+            raise Missing(f"dispatch chain on {var}")
+        node, pairs = first[0], []
+        while True:
+            lit = node.test.comparators[0]
+            if not (isinstance(lit, ast.Constant) and isinstance(lit.value, str)):
+                raise Untranslatable("dispatch literal")
+            if len(node.body) != 1 or not isinstance(node.body[0], ast.Assign):
+                raise Untranslatable("dispatch branch")
+            pairs.append((lit.value, ast.unparse(node.body[0].value)))
+            if len(node.orelse) == 1 and isinstance(node.orelse[0], ast.If) and ast.unparse(node.orelse[0].test.left) == var:
+                node = node.orelse[0]
+                continue
+            if len(node.orelse) != 1 or not isinstance(node.orelse[0], ast.Raise) \
+                    or not ast.unparse(node.orelse[0].exc).startswith("ValueError"):
+                raise Untranslatable("dispatch chain does not end in raise ValueError")
+            break
+        return pairs
+    for var, nm in (("correlation", "dispatch_correlation"), ("match", "dispatch_match")):
+        pairs = chain(var)
+        body = "".join(f"  if s = {lean_str(k)} then some {lean_str(v)} else\n" for k, v in pairs) + "  none\n"
+        out += f"/-- `{var}` -> class chosen by `run_refine`; `none` = ValueError -/\ndef {nm} (s : String) : Option String :=\n{body}"
+    cls = [n for n in ast.walk(fn) if isinstance(n, ast.ClassDef)]
+    if len(cls) != 1:
+        raise Missing("ad-hoc class in run_refine")
+    out += _fp("refine_bases", ", ".join(ast.unparse(b) for b in cls[0].bases))
+    udf_call = find_assign(fn, "udf")
+    out += _fp("refine_udf_kwargs", ", ".join(f"{k.arg}={ast.unparse(k.value)}" for k in udf_call.value.keywords))
+    out += _fp("refine_return", ast.unparse([s for s in stmts_of(fn) if isinstance(s, ast.Return)][0].value))
+    out += _fp("refine_result_buffers", _method_body(UR, "RefinementMixin.get_result_buffers"))
+    return out
+
+
+@fragment("Udf", "integration")
+def _():
+    out = _fp("integration_process_frame", _method_body(UI, "IntegrationUDF.process_frame"))
+    out += _fp("integration_task_data", _method_body(UI, "IntegrationUDF.get_task_data"))
+    out += _fp("integration_result_buffers", _method_body(UI, "IntegrationUDF.get_result_buffers"))
+    return out
